@@ -50,6 +50,25 @@ class FaultDist(ciw.dists.Distribution):
         return FaultDist(copy.deepcopy(self.base, memo), self.k, self.bad, self.counter)
 
 
+class TimeDep(ciw.dists.Distribution):
+    """Custom time-dependent distribution (documented extension point): value depends on the clock."""
+    def __init__(self, vals, period):
+        self.vals, self.period = vals, period
+    def sample(self, t=None, ind=None):
+        return self.vals[int(float(t or 0.0) // self.period) % len(self.vals)]
+
+
+class StateDep(ciw.dists.Distribution):
+    """Custom state-dependent service distribution: depends on the population of the customer's node."""
+    def __init__(self, base, slope):
+        self.base, self.slope = base, slope
+    def sample(self, t=None, ind=None):
+        n = 0
+        if ind is not None and getattr(ind, 'simulation', False) and ind.node:
+            n = min(ind.simulation.nodes[ind.node].number_of_individuals, 5)
+        return self.base + self.slope * n
+
+
 def make_dist(spec):
     if spec is None:
         return None
@@ -68,6 +87,8 @@ def make_dist(spec):
     if k == 'weib': return D.Weibull(spec['scale'], spec['shape'])
     if k == 'logn': return D.Lognormal(spec['mean'], spec['sd'])
     if k == 'sum': return make_dist(spec['l']) + make_dist(spec['r'])
+    if k == 'timedep': return TimeDep(list(spec['vals']), spec['period'])
+    if k == 'statedep': return StateDep(spec['base'], spec['slope'])
     if k == 'poisson': return D.Poisson(spec['rate'])
     if k == 'geom': return D.Geometric(spec['p'])
     if k == 'binom': return D.Binomial(spec['n'], spec['p'])
@@ -206,12 +227,21 @@ def gen_spec(seed, profile=None):
                 d_ = rand_time_dist(r, lattice, scale=P('arr_scale', 1.0) * ncls, allow_zero=False)
                 if lattice and d_['d'] == 'seq' and r.random() < P('p_zero_first_arrival', 0.15):
                     d_['s'][0] = 0.0      # a first arrival at time 0 is a valid input
+                if r.random() < P('p_custom_dist', 0.08) * 0.6:
+                    g_ = 0.5 if lattice else 0.43
+                    d_ = {'d': 'timedep', 'vals': [g_ * r.randint(1, 5) * ncls for _ in range(r.randint(2, 3))], 'period': r.choice([2.0, 3.5, 5.0])}
                 if not lattice and r.random() < P('p_composite_seq', 0.08):
                     d_ = {'d': 'sum', 'l': {'d': 'seq', 's': [round(r.uniform(0.1, 1.5), 3) for _ in range(r.randint(2, 4))]}, 'r': d_}
                 arr[c].append(d_); any_arr = True
             else:
                 arr[c].append(None)
-            srv[c].append(rand_time_dist(r, lattice, scale=P('srv_scale', 0.8), allow_zero=lattice and r.random() < P('p_zero_service', 0.2)))
+            sd_ = rand_time_dist(r, lattice, scale=P('srv_scale', 0.8), allow_zero=lattice and r.random() < P('p_zero_service', 0.2))
+            u_ = r.random()
+            if u_ < P('p_custom_dist', 0.08):
+                g_ = 0.5 if lattice else 0.37
+                sd_ = {'d': 'statedep', 'base': g_ * r.randint(1, 3), 'slope': g_ * r.choice([0, 1, 1, 2]) * 0.5} if r.random() < 0.5 else \
+                      {'d': 'timedep', 'vals': [g_ * r.randint(1, 4) for _ in range(r.randint(2, 3))], 'period': r.choice([1.0, 2.5, 4.0])}
+            srv[c].append(sd_)
             if use_bat and r.random() < 0.6:
                 bat[c].append(r.choice(BATCH_CHOICES))
             else:
